@@ -217,8 +217,10 @@ func RunChild(bin, mode string, c *ChildCase, strace bool, timeout time.Duration
 	var so, se bytes.Buffer
 	cmd.Stdout, cmd.Stderr = &so, &se
 	cmd.Env = append(os.Environ(), "GOTRACEBACK=single")
+	cmd.SysProcAttr = &syscall.SysProcAttr{Setpgid: true} // own process group: the watchdog kills the whole group
+	cmd.WaitDelay = 2 * time.Second
 	if c.Unprivileged && !strace {
-		cmd.SysProcAttr = &syscall.SysProcAttr{Credential: &syscall.Credential{Uid: 65534, Gid: 65534, NoSetGroups: false}}
+		cmd.SysProcAttr.Credential = &syscall.Credential{Uid: 65534, Gid: 65534, NoSetGroups: false}
 		os.Chmod(casePath, 0o644)
 	}
 	if err := cmd.Start(); err != nil {
@@ -231,10 +233,8 @@ func RunChild(bin, mode string, c *ChildCase, strace bool, timeout time.Duration
 	case <-done:
 	case <-time.After(timeout):
 		res.TimedOut = true
+		syscall.Kill(-cmd.Process.Pid, syscall.SIGKILL)
 		cmd.Process.Kill()
-		if strace {
-			exec.Command("pkill", "-KILL", "-P", strconv.Itoa(cmd.Process.Pid)).Run()
-		}
 		<-done
 	}
 	if ws, ok := cmd.ProcessState.Sys().(syscall.WaitStatus); ok {
